@@ -38,9 +38,10 @@ def fbool(value):
 
 def fboolorfloat(value):
     """Bool or float"""
-    if isinstance(value, (str, bool)) or value == 0:
+    if isinstance(value, (str, bool, np.bool_)) or value == 0:
         return fbool(value)
-    elif isinstance(value, (int, float)):
+    elif isinstance(value, numbers.Real):
+        # this includes numpy scalars (e.g. values read from HDF5 attributes)
         return float(value)
     else:
         raise ValueError(f"Value could not be converted to bool "
@@ -72,7 +73,8 @@ def fintlist(alist):
         # we have a string (comma-separated integers)
         alist = alist.strip().strip("[] ").split(",")
     for it in alist:
-        if it:
+        # skip empty entries (e.g. from "[]" or "1,,2"), but keep zeros
+        if it or isinstance(it, (numbers.Number, np.bool_)):
             outlist.append(fint(it))
     return outlist
 
